@@ -504,9 +504,13 @@ def _join(ex, obj, args, kw, line):
 @method("append")
 def _append(ex, obj, args, kw, line):
     if isinstance(obj, list):
+        if ex.interference is not None:
+            ex.interference.on_mutate(ex, obj, line)
         obj.append(args[0])
         return None
     if isinstance(obj, SIntList):
+        if ex.interference is not None:
+            ex.interference.on_mutate(ex, obj, line)
         v = args[0]
         vs = (v,) if obj.width == 1 else v
         if not (isinstance(vs, tuple) and len(vs) == obj.width and all(_isint(x) for x in vs)):
@@ -575,6 +579,9 @@ def _bit_length(ex, obj, args, kw, line):
 @method("copy")
 def _copy(ex, obj, args, kw, line):
     if isinstance(obj, DictView):
+        if ex.interference is not None:
+            for k in list(obj.obj.fields):
+                ex.interference.on_load(ex, obj.obj, k)          # dict.copy reads every field of the shared object
         return dict(obj.obj.fields)
     if isinstance(obj, dict):
         return dict(obj)
